@@ -11,6 +11,9 @@ EARLY = {"PE", "PA", "DE", "DA", "FCE", "FCAE", "FATE"}     # routes that go thr
 def run_route(name: str, e, x, p, warm=()):
     """x: variable name or Variable object; warm: points the route's own long-lived object (the
     Partial / Derivative / Differential) is asked about before p — answers there are discarded"""
+    if isinstance(x, str):
+        from .wire import fresh_str
+        x = fresh_str(x)        # an equal str, not the object stored in the Variable leaves
     def make():
         if name in ("PL", "PA"):
             P = sm.Partial(e, x)
